@@ -96,6 +96,29 @@ CLAIMED["C16"] = (
     "Trusted: TLC; the strictly increasing digit->value maps; std guard (Ord/PartialEq) on every vector.",
     "DESIGN §5 C16")
 
+CLAIMED["C07"] = (
+    "TLA+ spec (Chars.tla: boundary scans, shift-and-mask decoder, start_offset bookkeeping vs the characters of "
+    "the string per Utf8.tla) model-checked by TLC incl. a complete scalar sweep as ASSUME; every distinct state "
+    "replayed on chars/char_indices/Rev types; recorded histories validated by Trace_Chars.tla; complete "
+    "from_u32/encode_utf8/decode sweep of the real code validated block-wise by Trace_CharSweep.tla",
+    "Complete enumeration for the conversions: every u32 in 0..0x120000 (+ boundary values to u32::MAX) is run "
+    "through konst's from_u32, encode_utf8 and chars() and checked by TLC against the arithmetic definition of "
+    "UTF-8. Iterators: all strings of <=4 characters over {a, n-tilde, U+0800, crab} and <=3 over nine "
+    "class-boundary characters, every front/back/rev interleaving (complete state graph), item, byte offset and "
+    "as_str compared at every state; plus 16k-240k recorded events on random strings of arbitrary scalars.",
+    "Trusted: TLC, Utf8.tla's Encode/Decode (std-guarded on replay), harness rendering.",
+    "DESIGN §5 C07")
+CLAIMED["C08"] = (
+    "TLA+ spec (SliceIter.tla: index arithmetic of the 8 iterator kinds x forward/Rev refines std's partition of "
+    "the remaining slice) model-checked by TLC over the complete state graph; every distinct state replayed on "
+    "the real iterators (steps taken on copies); recorded long histories validated by Trace_SliceIter.tla",
+    "Exhaustive within bounds: slice lengths 0..7 (thorough 0..10), all sizes 1..len+1, every interleaving of "
+    "next / next_back / rev for iter, iter_copied, windows, chunks, rchunks, chunks_exact, rchunks_exact and "
+    "array_chunks (N<=5): yielded window, termination step and as_slice/remainder compared at every state; plus "
+    "20k-320k recorded steps on slices up to 200 elements with sizes up to len+1.",
+    "Trusted: TLC; items identified by address window over distinct u16 elements; std guard on every state.",
+    "DESIGN §5 C08")
+
 NOT_YET = {}
 
 def main():
